@@ -68,6 +68,8 @@ package ysgo
 //@   ensures "no-writes":           nwrites(World) == nwrites(old(World)) && ndispatch(World) == ndispatch(old(World))
 //
 //@ func evaluateBinaryOperation(operator int, leftOperand *tree.Expression, rightOperand *tree.Expression, retriever variable.Retriever, caller functionCaller) (v *variable.Value, err error)
+//@   unreachable "cannot AND two values"   // and / or reach this function only with two booleans (the caller handles the rest)
+//@   unreachable "cannot OR two values"
 //@   requires wfExpr(leftOperand) && wfExpr(rightOperand) && dyntype(retriever) != 0 && dyntype(caller) != 0
 //@   modifies World
 //@   ensures "table":               (err == nil) == EvalBin(operator, leftOperand, rightOperand, old(World)).ok &&
@@ -511,6 +513,7 @@ package ysgo
 // ---- base_functions.go: conversions (C19) and random built-ins (C09) -----------------------------------------
 //
 //@ func toString(args []*variable.Value) (v *variable.Value, err error)
+//@   unreachable "received a value which was not a number"   // defensive: a well-formed value is one of the three
 //@   float ieee
 //@   requires allWf(args)
 //@   carveout "D15": len(args) == 1 && isVNum(absval(args[0])) ==> fitsInt(absval(args[0]).n)
@@ -519,6 +522,7 @@ package ysgo
 //@   ensures "error-never-a-value": (err != nil ==> v == nil) && (err == nil ==> wfVal(v))
 //
 //@ func toBoolean(args []*variable.Value) (v *variable.Value, err error)
+//@   unreachable "received a value which was not a number"
 //@   requires allWf(args)
 //@   ensures "identity-on-booleans": len(args) == 1 && isVBool(absval(args[0])) ==> err == nil && absval(v) == absval(args[0])
 //@   ensures "parses-strings": len(args) == 1 && isVStr(absval(args[0])) ==>
@@ -527,6 +531,7 @@ package ysgo
 //@   ensures "error-never-a-value": (err != nil ==> v == nil) && (err == nil ==> wfVal(v))
 //
 //@ func toFloat(args []*variable.Value) (v *variable.Value, err error)
+//@   unreachable "received a value which was not a number"
 //@   requires allWf(args)
 //@   ensures "identity-on-numbers": len(args) == 1 && isVNum(absval(args[0])) ==> err == nil && absval(v) == absval(args[0])
 //@   ensures "parses-strings": len(args) == 1 && isVStr(absval(args[0])) ==>
